@@ -155,9 +155,14 @@ def encode_args(params, args, reg_mask_style='mask'):
         kind, val = next(it)
         is_reg = kind in ('ri', 'rf')
         if is_reg:
-            if p.imm or p.is_string or p.is_jump or p.arg0: raise Unencodable('register where only an immediate is allowed')
-            if bit >= 16: raise Unencodable('the parameter mask has 16 bits: a register in parameter 17+ cannot be marked')
-            mask |= 1 << bit
+            if p.is_string or p.is_jump or p.arg0: raise Unencodable('register where only an immediate is allowed')
+            if p.imm:
+                # documented: only a warning; the register number is stored as a plain value, the parameter gets no mask bit
+                # (but still occupies its bit position)
+                pass
+            else:
+                if bit >= 16: raise Unencodable('the parameter mask has 16 bits: a register in parameter 17+ cannot be marked')
+                mask |= 1 << bit
         bit += 1
         if p.is_int:
             if kind == 'rf': raise Unencodable('float register in int slot')
